@@ -177,17 +177,19 @@ func (p *parser) parseReferenceType(generic bool) (ddptypes.Type, bool) {
 		case token.ZAHL, token.KOMMAZAHL, token.BUCHSTABE, token.VARIABLE:
 			typ, isRef = p.tokenTypeToType(p.previous().Type), false
 		case token.BYTE, token.WAHRHEITSWERT, token.TEXT:
+			// remember the type name, the tokens that follow may be missing in faulty source code
+			elementType := p.tokenTypeToType(p.previous().Type)
 			if p.matchAny(token.LISTE) {
-				typ, isRef = ddptypes.ListType{ElementType: p.tokenTypeToType(p.peekN(-2).Type)}, false
+				typ, isRef = ddptypes.ListType{ElementType: elementType}, false
 			} else if p.matchAny(token.LISTEN) {
 				if !p.consumeSeq(token.REFERENZ) {
 					// report the error on the REFERENZ token, but still advance
 					// because there is a valid token afterwards
 					p.advance()
 				}
-				typ, isRef = ddptypes.ListType{ElementType: p.tokenTypeToType(p.peekN(-3).Type)}, true
+				typ, isRef = ddptypes.ListType{ElementType: elementType}, true
 			} else if p.matchAny(token.REFERENZ) {
-				typ, isRef = p.tokenTypeToType(p.peekN(-2).Type), true
+				typ, isRef = elementType, true
 			} else {
 				typ, isRef = p.tokenTypeToType(p.previous().Type), false
 			}
